@@ -127,8 +127,8 @@ Proof. vm_compute. repeat split. eexists. split; reflexivity. Qed.
     inside any number of open branches.  Side condition [gsegs_ok]: the items are items of the grammar, parentheses
     balance, a multiplied branch names its anchor and the order of the bond that reaches its first node, and the
     recipe table is in order where it stands ([gtrack]: since the outermost open branch was opened, nothing was
-    closed except sibling branches of the multiplied branch's own anchor directly in front of it - this flat form
-    keeps that condition; the form with closings, [g2track] below, no longer needs it since fix ee9caf1) and it
+    closed except sibling branches ... was the former table condition: since fix ee9caf1 [gtrack], like [g2track]
+    below, places no condition on what was closed before the multiplied branch) and it
     contains neither ring markers nor nested branches (ring_in_unit, nested_in_unit).  Then the reader model reads the shorthand and the longhand (branch and anchor written out n
     times) as the SAME graph with the SAME numbering. *)
 Theorem C05_branch_partial_gen : forall fo l, gsegs_ok fo l = true ->
